@@ -1,7 +1,7 @@
 (* C12 — Hash envelopes: only conforming envelopes are produced or accepted.
    Statements only (copied from coq/theories by bin/mkprops); each proof is `exact <lemma>`. *)
 From Coq Require Import Ascii String ZArith List Bool Permutation.
-From GoCose Require Import Bytes Cbor CborProofs Res GoVal Obs Ecdsa EcdsaProofs Fx Headers Enc Dec Msg HashEnv Key SigVer Run TbsProofs FlowProofs DecProofs KeyProofs HdrProofs EncProofs EncCanon NoPanic Effects MoreProofs KeyCbor EncDec HdrRoundTrip WireLeg RulesTie.
+From GoCose Require Import Bytes Cbor CborProofs Res GoVal Obs Ecdsa EcdsaProofs Fx Headers Enc Dec Msg HashEnv Key SigVer Run TbsProofs FlowProofs DecProofs KeyProofs HdrProofs EncProofs EncCanon NoPanic Effects MoreProofs KeyCbor EncDec HdrRoundTrip WireLeg RulesTie HeWire.
 From GoCose.Gen Require Import Generated.
 Import ListNotations.
 Open Scope Z_scope.
@@ -57,3 +57,45 @@ Theorem C12_set_he_protected_carries :
   glookup (lbl c_HeaderLabelPayloadHashAlgorithm) (set_he_protected base p) = Some (GInt KAlg (he_alg p)).
 Proof. exact set_he_protected_carries. Qed.
 Print Assumptions C12_set_he_protected_carries.
+
+(* whatever SignHashEnvelope returns (typed buckets of simple values) is accepted by VerifyHashEnvelope under an accepting verifier, and the message it returns carries the digest and the payload hash algorithm that were asked for *)
+Theorem C12_sign_he_then_verify_he :
+  forall sg vf h p env calls x r sig,
+  rawU h = None ->
+  sign_he sg h p = (Acc env, calls) ->
+  accepts vf sg ->
+  let h' := mkH None (Some (set_he_protected (hP h) p)) None (hU h) in
+  out_post (sign1_sign (mkS1 h' (he_value p) None) None sg) = mkS1 (mkH None (Some (x :: r)) None (hU h)) (he_value p) (Some sig) ->
+  bucket_ok (Some (x :: r)) -> bucket_ok (hU h) -> prot_limits (Some (x :: r)) -> unprot_limits (hU h) ->
+  (exists hv, he_value p = Some hv /\ short hv) -> short sig ->
+  validate_he_headers (mkH None (Some (x :: r)) None (hU h)) = true ->
+  payload_hash_alg_of (Some (x :: r)) = Acc (he_alg p) ->
+  lib_wf false (tl env) <> None ->
+  exists m', fst (verify_he vf env) = Acc m' /\ s1_payload m' = he_value p /\
+             payload_hash_alg_of (hP (s1_h m')) = Acc (he_alg p).
+Proof. exact sign_he_then_verify_he. Qed.
+Print Assumptions C12_sign_he_then_verify_he.
+
+Theorem C12_he_wire :
+  forall x r ou hv sig env vf a,
+  let lp := x :: r in
+  let m1 := mkS1 (mkH None (Some lp) None ou) (Some hv) (Some sig) in
+  bucket_ok (Some lp) -> bucket_ok ou -> prot_limits (Some lp) -> unprot_limits ou ->
+  short hv -> short sig -> sig <> [] ->
+  validate_he_headers (s1_h m1) = true ->
+  payload_hash_alg_of (Some lp) = Acc a -> validate_hash a (Some hv) = true ->
+  marshal_sign1 m1 = Acc env -> lib_wf false (tl env) <> None ->
+  fst (sign1_verify m1 None vf) = Acc tt ->
+  exists m', fst (verify_he vf env) = Acc m' /\ s1_payload m' = Some hv /\ s1_sig m' = Some sig /\
+             payload_hash_alg_of (hP (s1_h m')) = Acc a.
+Proof. exact he_wire. Qed.
+Print Assumptions C12_he_wire.
+
+Theorem C12_he_example :
+  fst (sign_he ex_sg ex_h ex_p) = Acc ex_env /\
+  match fst (verify_he ex_vf ex_env) with
+  | Acc m => s1_payload m = Some (repeat 7 32) /\ payload_hash_alg_of (hP (s1_h m)) = Acc (-16)
+  | _ => False
+  end.
+Proof. exact he_example. Qed.
+Print Assumptions C12_he_example.
